@@ -11,20 +11,21 @@ SPEC = dict(
     thorough=dict(cases=8000, len=60, shards=16),
     nontrivial=nontrivial,
     rule="cases = random histories on a real InMemCollector (2 parked workers, fake clock, recording MockTransmission): span arrivals "
-         "(client rates 0,1,2,3,10,100,2^31-2,2^31-1 and random < 2^31; spans, span events, links, roots), decisions of one trace by the "
+         "(client rates 0,1,2,3,10,100,2^31-2,2^31-1 and random < 2^31; spans, span events, links, roots; a quarter of the payloads already carry meta.refinery.original_sample_rate -- equal to the client rate, different, or 0 -- in the payload's dedicated field as the router's ExtractMetadata leaves it), decisions of one trace by the "
          "environment's real sampler (deterministic 1/2/10/2^32+1 -- the last keeps next to nothing since fix 2ccad7d --, rules with keep/drop/zero rules) or by a scripted sampler answer "
-         "(rates 1..2^64-1 incl. 2^32-1, 2^32, 2^32+1), sendTraces on one decided trace, ProcessSpanImmediately with the real "
+         "(rates 1..2^64-1 incl. 2^32-1, 2^32, 2^32+1), the collector's own long-lived sendTraces goroutine handed one decided trace at a time (reloads between drains are seen by the same goroutine), ProcessSpanImmediately with the real "
          "StressRelief.GetSampleRate (SamplingRate 1,2,3,100,2^32,2^32+7; two trace ids whose hash is kept at 2^32), reloads toggling "
          "DryRun and the decoration options, plus stateless probes of the real samplers' rate floor (DeterministicSampler, RulesBasedSampler, "
          "DynamicSampler fed by a dynsampler answering -5..2^62) and of route's batch sample-rate conversion; non-trivial = at least one span was forwarded after a decision; distinct by transcript hash",
     trusted_base=["transmit.MockTransmission records what EnqueueSpan receives",
                   "types.Payload.All/Get report the fields that would be serialised",
+                  "a sentinel trace synchronises the harness with the sendTraces goroutine",
                   "the harness makes one trace due by setting its SendBy to the (never advancing) fake clock's now before calling the real sendExpiredTracesInCache",
                   "Go uint is 64 bit (modelled as arithmetic mod 2^64)"],
     assumptions=["the sampler's answer (rate, keep, reason, key) and StressRelief.GetSampleRate's answer are parameters (recorded from the real objects and passed to the model)",
                  "decision records are not evicted (caches sized accordingly); the cuckoo drop filter has no false positives on the generated ids",
                  "additional attribute keys are not names of fields Refinery writes itself",
-                 "one collector step at a time (workers parked; sendTraces run synchronously on one trace)",
+                 "one collector step at a time (workers parked; the sendTraces goroutine is given one trace and awaited)",
                  "dry run is outside C04 (the model covers it; the C04 monitor skips spans forwarded in dry run)"],
     manifest=dict(
         text="Lean theorems for all client rates in [0,2^31), all trace rates and all histories of the collector model: merge_formula "
